@@ -120,7 +120,7 @@ Proof.
   destruct (advance_query repo_cfg (links s) t (mkDs (objs s) (dats s) (bag s)) i Q F PC) as (A & B & _ & D).
   fold x' in A, B, D. split.
   - rewrite B. apply filter_In. split.
-    + apply (query_covers repo_cfg (links s) t k ch eq_refl); auto.
+    + apply (query_covers repo_cfg (links s) t k ch eq_refl eq_refl); auto.
     + cbn. rewrite E. reflexivity.
   - assert (QX x') by (apply QX_data_step; [reflexivity | cbn; eapply repo_reach_WF; eauto | exact Q]).
     destruct H as (_ & Q1 & _). apply Q1. rewrite D. lia.
@@ -188,13 +188,120 @@ Proof.
   fold x' in B. rewrite B, filter_In. cbn [g_skip_eph repo_cfg]. split.
   - intros [H E]. split. { destruct (eph ch); auto; discriminate. } apply (query_sound repo_cfg); auto.
   - intros [E (k & Hk & C & I & U & Ht & Kn)]. split.
-    + apply (query_covers repo_cfg (links s) t k ch eq_refl); auto.
+    + apply (query_covers repo_cfg (links s) t k ch eq_refl eq_refl); auto.
     + rewrite E. reflexivity.
 Qed.
 
 Lemma repo_precreate_all_fail : forall ls t,
-  (forall k, In k ls -> asked k = true -> answers k = false) -> query repo_cfg ls t = [].
+  (forall k, In k ls -> asked repo_cfg k = true -> answers k = false) -> query repo_cfg ls t = [].
 Proof. intros. apply query_all_fail. auto. Qed.
+
+(* the state of the nsqd -> nsqlookupd TCP connection plays no part in the query: two link lists
+   that differ only in the TCP side (lp.state, unread bytes, whether the nsqlookupd holds the
+   connection, this producer's registrations, the fault scripts) give the same channels — a
+   dropped, refused, stalled or garbage-answering TCP peer is still asked over HTTP *)
+Definition same_http_side (k k' : link) : Prop :=
+  k_conf k = k_conf k' /\ k_info k = k_info k' /\ l_up k = l_up k' /\ l_http k = l_http k' /\ l_known k = l_known k'.
+
+Lemma query_ignores_tcp c : g_ask_any_state c = true -> forall ls ls' t,
+  Forall2 same_http_side ls ls' -> query c ls t = query c ls' t.
+Proof.
+  intros G ls ls' t F. unfold query.
+  assert (A : forall k k', same_http_side k k' -> asked c k = asked c k' /\ answers k = answers k').
+  { intros k k' (C & I & U & H & _). unfold asked, answers. rewrite C, I, U, H, G. auto. }
+  assert (E : query_fails c ls = query_fails c ls' /\ query_union c ls t = query_union c ls' t).
+  { unfold query_fails, query_union. induction F as [|k k' r r' Hk _ [IH1 IH2]]; cbn; auto.
+    destruct (A k k' Hk) as [A1 A2]. destruct Hk as (_ & _ & _ & _ & Kn). rewrite A1, A2, Kn, IH1, IH2. auto. }
+  destruct E as [E1 E2].
+  rewrite E1, E2. reflexivity.
+Qed.
+
+Lemma repo_precreate_ignores_tcp_state : forall ls ls' t,
+  Forall2 same_http_side ls ls' -> query repo_cfg ls t = query repo_cfg ls' t.
+Proof. apply query_ignores_tcp. reflexivity. Qed.
+
+(* lp.Info outlives the connection: no exchange, failed or not, forgets the peer's address *)
+Lemma send_all_info c cms : forall k, k_info (fst (send_all c cms k)) = k_info k.
+Proof.
+  induction cms as [|cm r IH]; intros k; cbn; auto.
+  pose proof (exchange_frame c cm k) as F. cbn in F. destruct F as (_ & _ & _ & F & _).
+  destruct (exchange c cm k) as [k1 [b| |]]; cbn in *; auto. rewrite IH. auto.
+Qed.
+
+Lemma callback_info c rc k : k_info k = true -> k_info (fst (callback c rc k)) = true.
+Proof.
+  intros I. unfold callback.
+  pose proof (exchange_frame c CIdentify k) as F. cbn in F. destruct F as (_ & _ & _ & F & _).
+  destruct (exchange c CIdentify k) as [k1 [b| |]]; cbn in *; try congruence.
+  destruct (bytes_eqb b einvalid_body); cbn; try congruence.
+  destruct (json_parse b) as [info|]; cbn; try congruence.
+  rewrite send_all_info. cbn. rewrite F, I. reflexivity.
+Qed.
+
+Lemma command_info c rc cm k : k_info k = true -> k_info (fst (command c rc cm k)) = true.
+Proof.
+  intros I. unfold command.
+  assert (C : k_info (fst (connect c rc k)) = true).
+  { unfold connect. destruct (k_state k =? st_connected)%Z; cbn; auto.
+    destruct (negb (l_up k)); cbn; auto.
+    destruct (l_accept k) as [|[|] r]; cbn; auto; apply callback_info; cbn; auto. }
+  destruct (connect c rc k) as [k1 r]. cbn [fst snd] in *. unfold finish.
+  destruct r; cbn; auto.
+  destruct (k_state k1 =? st_connected)%Z; cbn; auto.
+  destruct cm as [x|]; cbn; auto.
+  pose proof (exchange_frame c x k1) as F. cbn in F. destruct F as (_ & _ & _ & F & _). congruence.
+Qed.
+
+Lemma command_conf c rc cm k : k_conf (fst (command c rc cm k)) = k_conf k.
+Proof. pose proof (command_frame c rc cm k) as F. cbn in F. tauto. Qed.
+
+(* every way of losing the TCP connection (cut + refused reconnects, accept-then-close, stalled reply,
+   invalid length prefix) leaves the peer in the set GetTopic asks *)
+Lemma repo_asked_survives_tcp_faults : forall os s s' n k fs,
+  run repo_cfg (Run init) os = Run s ->
+  forallb (fun o => match o with FAccept _ _ | FReply _ _ | Tick | Deliver _ => true | _ => false end) fs = true ->
+  run repo_cfg (Run s) fs = Run s' ->
+  nth_error (links s) n = Some k -> asked repo_cfg k = true ->
+  exists k', nth_error (links s') n = Some k' /\ asked repo_cfg k' = true.
+Proof.
+  intros os s s' n k fs _. revert s k. induction fs as [|o r IH]; intros s k Hf X Hn A.
+  - inversion X; subst. exists k. auto.
+  - cbn [forallb] in Hf. apply andb_true_iff in Hf. destruct Hf as [Ho Hr].
+    rewrite run_cons in X. destruct (step repo_cfg s o) as [s1|] eqn:S; [|rewrite run_crashed in X; discriminate].
+    assert (P : exists k1, nth_error (links s1) n = Some k1 /\ asked repo_cfg k1 = true).
+    { assert (AK : forall k1, k_conf k1 = k_conf k -> (k_info k = true -> k_info k1 = true) -> asked repo_cfg k1 = true).
+      { intros k1 C I. unfold asked in *. cbn [g_ask_any_state repo_cfg] in *. rewrite orb_true_l, andb_true_r in *.
+        apply andb_true_iff in A. destruct A as [A1 A2]. rewrite C, A1, (I A2). reflexivity. }
+      assert (LP : forall f ls, on_links f 0 (links s) = Some ls ->
+                   (forall a k0, k_conf (fst (f a k0)) = k_conf k0 /\ (k_info k0 = true -> k_info (fst (f a k0)) = true)) ->
+                   exists k1, nth_error ls n = Some k1 /\ asked repo_cfg k1 = true).
+      { intros f ls OL Hf. pose proof (on_links_fwd f _ _ _ OL n k Hn) as E. eexists. split; [exact E|].
+        destruct (Hf (0 + n) k) as [C I]. apply AK; auto. }
+      assert (FP : forall a g, (forall k0, k_conf (g k0) = k_conf k0 /\ k_info (g k0) = k_info k0) ->
+                   exists k1, nth_error (upd_link a g (links s)) n = Some k1 /\ asked repo_cfg k1 = true).
+      { intros a g Hg. unfold upd_link. destruct (nth_error (links s) a) as [ka|] eqn:Ea; [|eauto].
+        rewrite nth_error_upd. destruct (Nat.eqb_spec n a) as [->|Ne]; [|eauto].
+        rewrite Hn in *. inversion Ea; subst ka. eexists. split; eauto.
+        destruct (Hg k) as [C I]. apply AK; congruence. }
+      assert (CF : forall cm a k0, k_conf (fst ((fun (_ : nat) k => if k_conf k then command repo_cfg (registrations repo_cfg (objs s)) (Some cm) k else (k, XOk [])) a k0)) = k_conf k0 /\
+                   (k_info k0 = true -> k_info (fst ((fun (_ : nat) k => if k_conf k then command repo_cfg (registrations repo_cfg (objs s)) (Some cm) k else (k, XOk [])) a k0)) = true)).
+      { intros cm a k0. cbn beta. destruct (k_conf k0) eqn:C0; cbn [fst]; [|auto].
+        split; [rewrite command_conf; auto | apply command_info]. }
+      destruct o; try discriminate; unfold step in S; cbn [is_loop_op is_fault_op] in S.
+      - (* Deliver *)
+        cbn [loop_step] in S. destruct (nth_error (bag s) i) as [id|]; [|inversion S; subst; eauto].
+        destruct (on_links _ 0 (links s)) as [ls|] eqn:OL; [|discriminate]. inversion S; subst. cbn [links].
+        eapply LP; [exact OL|]. apply CF.
+      - (* Tick *)
+        cbn [loop_step] in S.
+        destruct (on_links _ 0 (links s)) as [ls|] eqn:OL; [|discriminate]. inversion S; subst. cbn [links].
+        eapply LP; [exact OL|]. apply CF.
+      - (* FAccept *)
+        inversion S; subst. cbn [fault_step links]. apply FP. intros; cbn; auto.
+      - (* FReply *)
+        inversion S; subst. cbn [fault_step links]. apply FP. intros; cbn; auto. }
+    destruct P as (k1 & H1 & A1). apply (IH s1 k1); auto.
+Qed.
 
 (* K6c: a reconnect inside the deletion of a topic's ONLY channel.  The channel is exiting but
    still in the map: connectCallback skips it and must register the bare topic. *)
@@ -233,3 +340,19 @@ Lemma partial_query_matters :
   | _, _ => False
   end.
 Proof. vm_compute. split; reflexivity. Qed.
+
+(* asking the disconnected peers matters: one nsqlookupd that knows channel 2 of topic 7, its TCP
+   connection cut and every reconnect refused, its HTTP interface up.  The source asks it: the channel
+   is pre-created and gets the first message.  "Skip the peers that are not connected" loses it. *)
+Definition cfg_ask_only_connected : cfg := repo_cfg <| g_ask_any_state := false |>.
+Definition lookupd_tcp_down_http_up : list op :=
+  [Reconfigure [0]; FKnown 0 [(7, 2)]%N; FReply 0 [RClose]; Tick; FAccept 0 [ARefuse; ARefuse; ARefuse]; Tick;
+   TopicCreate 7; TopicAdvance 7; TopicAdvance 7; TopicAdvance 7; Put 7 1; Pump 7].
+Lemma asking_disconnected_matters :
+  match run repo_cfg (Run init) lookupd_tcp_down_http_up, run cfg_ask_only_connected (Run init) lookupd_tcp_down_http_up with
+  | Run s, Run s' => map k_state (links s) = [st_disconnected] /\
+                     map (fun j => (o_c (getO (objs s) j), d_q (getD (dats s) j))) (chans_of (objs s) 0) = [(2, [1])]%N /\
+                     chans_of (objs s') 0 = []
+  | _, _ => False
+  end.
+Proof. vm_compute. repeat split; reflexivity. Qed.
